@@ -618,6 +618,13 @@ int tokens_get(AsmContext *asm_context, char *token, int len)
       }
 
       token[ptr++] = ch;
+
+      if (ptr >= len - 1)
+      {
+        print_error(asm_context, "Token is too long");
+        asm_context->error_count++;
+        break;
+      }
     }
   }
 
